@@ -170,7 +170,12 @@ class SyncedList(SyncedCollection, MutableSequence):
                     new_data = data[len(self) :]
                     if not _validate:
                         self._validate(new_data)
-                    self.extend(new_data)
+                    # Extend in place, but not via the public extend(): that
+                    # would take the collection lock, and a load (i.e. any
+                    # read) must not wait for locks.
+                    self._data += [
+                        self._from_base(data=value, parent=self) for value in new_data
+                    ]
         else:
             raise ValueError(
                 "Unsupported type: {}. The data must be a non-string sequence or None.".format(
